@@ -260,6 +260,10 @@ func main() {
 	if !ex {
 		r.Cap(fmt.Sprintf("C09s cut by the deadline (%d subtrees unexplored)", left))
 	}
+	if st.Diverged > 0 || st.Unreproducible > 0 {
+		r.Cap(fmt.Sprintf("%d executions diverged from their prefix and %d findings did not reproduce (uncaptured nondeterminism; nothing was concluded from them): %v", st.Diverged, st.Unreproducible, st.Notes))
+	}
+	r.Extra["c09s_diverged_executions"], r.Extra["c09s_unreproducible_findings"] = st.Diverged, st.Unreproducible
 	r.AddEval(st.Executions)
 	r.States += st.Points
 	r.Transitions += st.Steps
